@@ -10,7 +10,7 @@ object identities and the alias relation between live roots.  No semantics of th
 import math
 from fractions import Fraction
 
-from .absval import NAN, PINF, NINF, keyn
+from .absval import NAN, PINF, NINF, EMPTYNAME, keyn
 
 MAXDEN = 4096
 
@@ -93,7 +93,9 @@ class Pi:
     def name(self, h):
         q = getattr(h, "quantity", None)
         nm = getattr(q, "name", None)
-        return "" if nm is None else str(nm)
+        if nm is None:
+            return ""
+        return EMPTYNAME if str(nm) == "" else str(nm)
 
     def __call__(self, h, depth=0):
         k = type(h).__name__
